@@ -575,7 +575,8 @@ PLAIN = [0.0, 0.5, 1.0, -1.0, 1.5, 2.25, -0.75, 3.0, -2.5, 0.125, 4.0, -4.0, 16.
 SPECIAL = [float("nan"), float("inf"), float("-inf")]
 # categories: ordinary strings plus, rarely, names that collide with keyword parameters of ed() or with keys of the format
 STRINGS = ["a", "b", "c", "dd", "e f", "Z"]
-AWKWARD_STRINGS = ["entries", "contentType", "binsAsDict", "bins", "nan", "inf", "", "True", "0"]
+AWKWARD_STRINGS = ["entries", "contentType", "binsAsDict", "bins", "nan", "inf", "", "True", "0",
+                   "caf\u00e9", "\u65e5\u672c", "caf\udce9.csv"]  # the last one is what os.fsdecode makes of a Latin-1 file name: a lone surrogate
 CUTS = [True, False, 1.0, 0.0, 0.5, 2.0, -1.0, float("nan"), 0.25]
 POS_WEIGHTS = [1.0, 1.0, 1.0, 0.5, 2.0, 0.25, 4.0, 1.5]
 ODD_WEIGHTS = [0.0, -1.0, float("nan"), -0.5]
